@@ -33,8 +33,10 @@ func genRouter(f focus) *rapid.Generator[uint64] {
 			return rBSC
 		case k < 84:
 			return rHECO
-		case k < 89:
+		case k < 88:
 			return rPIXIE
+		case k < 94:
+			return rQUORUM
 		}
 		return rapid.SampledFrom(destOnlyRouters).Draw(t, "destrouter")
 	})
@@ -194,10 +196,10 @@ func runHist(f focus) func(ctx *ev.Ctx, c histCase) {
 	}
 }
 
-const domainText = "cases: main-net L1 world with 2..7 consensus validators; a pool of 2..6 chains (routers vote, ripple-vote, eth, bsc, heco, pixie, hsc, bytom, " +
+const domainText = "cases: main-net L1 world with 2..7 consensus validators; a pool of 2..6 chains (routers vote, ripple-vote, eth, quorum, bsc, heco, pixie, hsc, bytom, " +
 	"or a destination-only account-based router) and 1..6 messages drawn so that cross-chain ids collide; a history of up to 24 (thorough 60) operations: " +
-	"registerSideChain/approve/quit flows, registerAsset, syncGenesisHeader (trust root of a synthetic EVM chain built with go-ethereum tries), BlackChain/WhiteChain, " +
-	"block/height changes and imports (votes one by one or to quorum; eth_getProof-style proofs). Every transaction's outcome and complete state delta is compared with the model. "
+	"registerSideChain/approve/quit flows, registerAsset, syncGenesisHeader (trust root / Istanbul validator set of a synthetic EVM chain built with go-ethereum tries), BlackChain/WhiteChain, " +
+	"block/height changes and imports (votes one by one or to quorum; eth_getProof-style proofs; quorum: sealed Istanbul header with the import). Every transaction's outcome and complete state delta is compared with the model. "
 
 func TestC20(t *testing.T) {
 	ev.Drive(t, "C20", domainText+
